@@ -23,8 +23,8 @@ ASSUMPTIONS = [
     'degenerate case compared with rtol 1e-9, plus the licensed e^-10 relative slack for emission (the cross-section path clamps saturated transmittances, the k path does not)',
     'general case: Jensen bound judged on transmission models; the cross-section run uses the weight-averaged coefficient table (interpolation is linear in the coefficients in linear mode)',
 ]
-RULE = RULE + ' ' + 'Also: the same k-mode model evaluated on two windows of equal length in sequence; the per-layer terms of the emission families in k-mode.'
-REQUIRED = {'refused-quadrature-before-use': 0.1, 'zero-weight-point': 0.15, 'requadrature': 0.08, 'grids:same-ends-other-spacing': 0.15, 'family:transmission': 0.2, 'family:emission': 0.2, 'degenerate': 0.3, 'general': 0.2, 'profile:noniso': 0.3}
+RULE = RULE + ' ' + 'Also: the same k-mode model evaluated on two windows of equal length in sequence; the per-layer terms of the emission families in k-mode. Round 9: in half of the cases one parameter (temperature, planet mass or an abundance) is moved alone - the k-mode model is evaluated at the drawn parameters first and then at the new ones, the cross-section model gets the new value before its first evaluation, so every clause compares a k-mode model with a past against a fresh cross-section model.'
+REQUIRED = {'live-update:planet_mass': 0.05, 'live-update:abundance': 0.05, 'live-update:temperature': 0.01, 'refused-quadrature-before-use': 0.1, 'zero-weight-point': 0.15, 'requadrature': 0.08, 'grids:same-ends-other-spacing': 0.15, 'family:transmission': 0.2, 'family:emission': 0.2, 'degenerate': 0.3, 'general': 0.2, 'profile:noniso': 0.3}
 
 
 @st.composite
@@ -93,8 +93,29 @@ def run(out, W, family, case, label):
             m.set_num_gauss(0)
         except Exception:
             out.cls('refused-quadrature-before-use')
+    # ---- history: in a third of the cases ONE parameter is moved alone (cooler, heavier, or a lower abundance: the atmosphere
+    # only gets more compact).  The k-mode model is evaluated first at the drawn parameters and then at the new ones (what a
+    # retrieval does); the cross-section model gets the new value before its first evaluation.  Every later clause then compares
+    # a k-mode model WITH a past against a fresh cross-section model
+    u = case['ngauss'] + len(case['weights'])
+    kind_u = (None, 'temperature', None, 'planet_mass', None, 'abundance')[u % 6]
+    name = None
+    if kind_u:
+        cands = {'temperature': ['T', 'T_surface', 'T_top'], 'abundance': list(m.chemistry.activeGases)}.get(kind_u, [kind_u])
+        name = next((c_ for c_ in cands if c_ in m.fittingParameters), None)
+        old = m.fittingParameters[name][2]() if name is not None else None
+        if not (isinstance(old, (float, int, np.floating)) and math.isfinite(old) and old > 0):
+            name = None
+    fac_u = {'temperature': 0.7, 'planet_mass': 1.4, 'abundance': 0.5}.get(kind_u, 1.0)
+    if name is not None and label != 'k':
+        m[name] = old * fac_u
     with np.errstate(all='ignore'):
         r = cut(out, label + '-model', m.model)
+    if name is not None and label == 'k':
+        out.cls('live-update:' + kind_u)
+        m[name] = old * fac_u
+        with np.errstate(all='ignore'):
+            r = cut(out, label + '-model@live-update', m.model)
     return m, r
 
 
